@@ -105,8 +105,13 @@ fn main() {
             let mut fails = 0;
             for _ in 0..n {
                 let (line, mon) = if cmd == "queue" {
-                    let p = queue::gen_program(&mut rng, thorough);
-                    queue::run_case(&p, &mut rng, None)
+                    if rng.chance(1, 4) {
+                        let (p, m) = queue::gen_contended(&mut rng, thorough);
+                        queue::run_case_prefill(&p, &mut rng, None, m)
+                    } else {
+                        let p = queue::gen_program(&mut rng, thorough);
+                        queue::run_case(&p, &mut rng, None)
+                    }
                 } else {
                     let p = list::gen_program(&mut rng, thorough);
                     list::run_case(&p, &mut rng, None)
